@@ -440,8 +440,104 @@ fn recycle_inner(ctx: &mut Ctx, state: u64, case: &J) -> Result<(), String> {
 }
 
 // ------------------------------------------------------------------------------------------
+// TermInfoStore (through the public TermDictionaryBuilder / TermDictionary)
+// ------------------------------------------------------------------------------------------
+type Ti = (u32, u64, u64, u64, u64); // doc_freq, postings start..end, positions start..end
+
+fn ti_text(t: &Ti) -> String {
+    format!("{}:{}:{}:{}:{}", t.0, t.1, t.2, t.3, t.4)
+}
+
+fn gen_term_infos(rng: &mut Rng, n: usize) -> Vec<Ti> {
+    let mut p = if rng.chance(1, 2) { 0 } else { rng.next_u64() >> (24 + rng.below(30)) };
+    let mut q = if rng.chance(1, 2) { 0 } else { rng.next_u64() >> (24 + rng.below(30)) };
+    let len_bits = 1 + rng.below(24);
+    let with_positions = rng.chance(2, 3);
+    let df_bits = 1 + rng.below(31);
+    (0..n)
+        .map(|_| {
+            let pl = match rng.below(6) { 0 => 0, 1 => 1, _ => rng.next_u64() & ((1 << len_bits) - 1) };
+            let ql = if with_positions { match rng.below(4) { 0 => 0, _ => rng.next_u64() & ((1 << len_bits) - 1) } } else { 0 };
+            let df = (rng.next_u64() & ((1u64 << df_bits) - 1)) as u32;
+            let t = (df, p, p + pl, q, q + ql);
+            p += pl;
+            q += ql;
+            t
+        })
+        .collect()
+}
+
+fn check_terminfo_store(ctx: &mut Ctx, tis: &[Ti], model: bool) {
+    use tantivy::directory::FileSlice;
+    use tantivy::postings::TermInfo;
+    use tantivy::termdict::{TermDictionary, TermDictionaryBuilder};
+    let case = json!({"kind": "terminfo", "infos": tis.iter().map(ti_text).collect::<Vec<_>>()});
+    ctx.report.case(&format!("terminfo|{}|{:?}", tis.len(), tis.first()), !tis.is_empty());
+    ctx.report.count(&format!("terminfo:len:{}", match tis.len() { 0 => "0".into(), 1 => "1".into(), n if n % 256 == 0 => "k*256".to_string(), n if n % 256 == 1 => "k*256+1".to_string(), n if n % 256 == 255 => "k*256-1".to_string(), _ => "other".to_string() }));
+    let built = catch_unwind(|| -> Result<Vec<u8>, String> {
+        let mut b = TermDictionaryBuilder::create(Vec::new()).map_err(|e| e.to_string())?;
+        for (i, t) in tis.iter().enumerate() {
+            let ti = TermInfo { doc_freq: t.0, postings_range: t.1 as usize..t.2 as usize, positions_range: t.3 as usize..t.4 as usize };
+            b.insert((i as u32).to_be_bytes(), &ti).map_err(|e| e.to_string())?;
+        }
+        b.finish().map_err(|e| e.to_string())
+    });
+    let file = match built {
+        Ok(Ok(f)) => f,
+        Ok(Err(e)) => { ctx.report.violation("oracle", "C07:terminfo-roundtrip", format!("TermDictionaryBuilder failed: {e}"), case); return; }
+        Err(p) => { ctx.report.violation("oracle", "C07:panic", format!("TermDictionaryBuilder: {}", panic_msg(p)), case); return; }
+    };
+    // oracle: the real dictionary returns what was written
+    let back = catch_unwind(AssertUnwindSafe(|| -> Result<Vec<Option<Ti>>, String> {
+        let d = TermDictionary::open(FileSlice::from(file.clone())).map_err(|e| e.to_string())?;
+        if d.num_terms() != tis.len() {
+            return Err(format!("num_terms {} != {}", d.num_terms(), tis.len()));
+        }
+        (0..tis.len())
+            .map(|i| d.get((i as u32).to_be_bytes()).map(|o| o.map(|t| (t.doc_freq, t.postings_range.start as u64, t.postings_range.end as u64, t.positions_range.start as u64, t.positions_range.end as u64))).map_err(|e| e.to_string()))
+            .collect()
+    }));
+    match back {
+        Ok(Ok(got)) => {
+            if let Some(i) = (0..tis.len()).find(|i| got[*i] != Some(tis[*i])) {
+                ctx.report.violation("oracle", "C07:terminfo-roundtrip", format!("TermDictionary of {} terms: ordinal {i} reads {:?}, written {:?}", tis.len(), got[i], tis[i]), case.clone());
+            }
+        }
+        Ok(Err(e)) => ctx.report.violation("oracle", "C07:terminfo-roundtrip", format!("TermDictionary of {} terms: {e}", tis.len()), case.clone()),
+        Err(p) => ctx.report.violation("oracle", "C07:panic", format!("TermDictionary::get: {}", panic_msg(p)), case.clone()),
+    }
+    if !model || file.len() < 16 {
+        return;
+    }
+    // file = fst ++ store ++ store_len u64 ++ fst version u32 ++ dictionary type u32
+    let n = file.len();
+    let store_len = u64::from_le_bytes(file[n - 16..n - 8].try_into().unwrap()) as usize;
+    if store_len + 16 > n {
+        ctx.report.violation("model", "C07:model-terminfo", format!("cannot locate the TermInfoStore in the dictionary file (len {n}, store_len {store_len})"), case);
+        return;
+    }
+    let store = &file[n - 16 - store_len..n - 16];
+    let infos = if tis.is_empty() { "-".to_string() } else { tis.iter().map(ti_text).collect::<Vec<_>>().join(";") };
+    let m = ctx.model.ask(&format!("C07 tis_write {infos}"));
+    if m != hex(store) {
+        ctx.report.violation("model", "C07:model-terminfo", format!("TermInfoStore bytes of {} terms differ from the model's (real {} bytes, model {} hex chars)", tis.len(), store.len(), m.len()), case.clone());
+    }
+    let mut ords: Vec<usize> = vec![0, 1, 254, 255, 256, 257, 511, 512, tis.len().saturating_sub(1), tis.len() / 2];
+    ords.retain(|o| *o < tis.len());
+    ords.sort();
+    ords.dedup();
+    for o in ords {
+        let m = ctx.model.ask(&format!("C07 tis_get {} {o}", hex(store)));
+        if m != ti_text(&tis[o]) {
+            ctx.report.violation("model", "C07:model-terminfo", format!("model reading ordinal {o} of the real TermInfoStore ({} terms): {m}, written {}", tis.len(), ti_text(&tis[o])), case.clone());
+        }
+    }
+}
+
+// ------------------------------------------------------------------------------------------
 pub fn obligations() -> Vec<String> {
     vec![
+        "TermInfoStore bytes written through TermDictionaryBuilder = model `tis_write`; model `tis_get` of the real bytes = written TermInfo; TermDictionary::get = written TermInfo".into(),
         "serialize_vint_u32 bytes / read_u32_vint_no_advance = model (unrolled ladder with extracted thresholds); round trip on the real code".into(),
         "segments whose recorders see 2^(7k)-1, 2^(7k), 2^(7k)+1 as position+1, term frequency or doc-id gap read back exactly".into(),
         "recycled block cursor (read_block_postings_from_terminfo, advance/drain/seek, reset_block_postings_from_terminfo) enumerates exactly the new term".into(),
@@ -453,6 +549,14 @@ pub fn replay(ctx: &mut Ctx, case: &J) -> bool {
         "vint32" => check_vint32(ctx, case["v"].as_u64().unwrap_or(0) as u32, true),
         "thresholds" => run_threshold_variant(ctx, case),
         "recycle" => check_recycle(ctx, case["state"].as_str().and_then(|s| s.parse().ok()).unwrap_or(0)),
+        "terminfo" => {
+            let tis: Vec<Ti> = case["infos"].as_array().map(|a| a.iter().filter_map(|x| {
+                let p: Vec<u64> = x.as_str()?.split(':').filter_map(|t| t.parse().ok()).collect();
+                if p.len() == 5 { Some((p[0] as u32, p[1], p[2], p[3], p[4])) } else { None }
+            }).collect()).unwrap_or_default();
+            let has = ctx.model.ask("C07 tis_write -") != "bad-op";
+            check_terminfo_store(ctx, &tis, has);
+        }
         _ => return false,
     }
     true
@@ -476,6 +580,17 @@ pub fn run(ctx: &mut Ctx, model_has_vint32: bool) {
     for _ in 0..ctx.budget(6, 120) {
         let state = ctx.rng.fork().0;
         check_recycle(ctx, state);
+    }
+    let has_tis = ctx.model.ask("C07 tis_write -") != "bad-op";
+    if !has_tis {
+        ctx.report.violation("model", "C07:model-unavailable", "the Lean driver answers bad-op for tis_write".into(), json!({"kind": "probe"}));
+    }
+    let mut rng = ctx.rng.fork();
+    for round in 0..ctx.budget(4, 60) {
+        for n in [0usize, 1, 2, 3, 255, 256, 257, 511, 512, 513, 700 + 97 * round as usize % 400] {
+            let tis = gen_term_infos(&mut rng, n);
+            check_terminfo_store(ctx, &tis, has_tis);
+        }
     }
     ctx.report.sample(json!({"recycled_cursor": "terms all/third/block(128)/b127/b129/b256/b384/rare/single/late/bern over 1000-1700 docs; cursor of A moved by 0-2 advances, a seek or a full drain, then reset to B and drained", "thresholds": "positions (PreTokenizedString + accumulated multi-value), tf via repeated tokens, doc-id gaps via a sparse term among empty docs"}));
 }
